@@ -111,7 +111,8 @@ def _load(key: str) -> bytes:
 SYNTH_EXT = {"rtf-big-picture": ".rtf", "mbox-raw-8bit-headers": ".mbox", "7z-huge-file-count": ".7z", "7z-huge-stream-count": ".7z", "zip-huge-entry-count": ".zip",
              "zip-ascii-then-nonascii": ".zip", "mbox-ascii-then-nonascii": ".mbox",
              "7z-self-referential-encoded-header": ".7z", "7z-encoded-header-chain": ".7z",
-             "tar-absolute-member-names": ".tar", "zip-absolute-member-names": ".zip", "tar-latin1-member-names": ".tar"}
+             "tar-absolute-member-names": ".tar", "zip-absolute-member-names": ".zip", "tar-latin1-member-names": ".tar", "zip-with-compressed-members": ".zip",
+             "docx-equations-nested-48": ".docx"}
 
 
 def _synthetic(name: str) -> bytes:
@@ -138,6 +139,50 @@ def _synthetic(name: str) -> bytes:
             body, off = first, 18
         start = _st.pack("<QQI", off, len(hdr), _zl.crc32(hdr) & 0xFFFFFFFF)
         return b"7z\xbc\xaf\x27\x1c\x00\x04" + _st.pack("<I", _zl.crc32(start) & 0xFFFFFFFF) + start + body + hdr
+    if name == "zip-with-compressed-members":
+        # an archive of logs and backups: members that are compressed streams or archives themselves, under the names tools give them
+        import bz2 as _bz2, gzip as _gz, io as _io, lzma as _lz, tarfile as _tf, zipfile as _zf
+        inner_tar = _io.BytesIO()
+        with _tf.open(fileobj=inner_tar, mode="w") as t:
+            ti = _tf.TarInfo("inner/note.txt")
+            d_ = b"qb00009z inside the inner tar\n"
+            ti.size = len(d_)
+            t.addfile(ti, _io.BytesIO(d_))
+        buf = _io.BytesIO()
+        with _zf.ZipFile(buf, "w") as z:
+            z.writestr("readme.txt", "qb00001z plain member\n")
+            z.writestr("logs/app.log.gz", _gz.compress(b"qb00002z a gzip-compressed log\n"))
+            z.writestr("logs/old.log.bz2", _bz2.compress(b"qb00003z a bzip2-compressed log\n"))
+            z.writestr("logs/older.log.xz", _lz.compress(b"qb00004z an xz-compressed log\n"))
+            z.writestr("backup/site.tar.gz", _gz.compress(inner_tar.getvalue()))
+            z.writestr("backup/site.tgz", _gz.compress(inner_tar.getvalue()))
+            z.writestr("last.md", "# qb00005z last member\n")
+        return buf.getvalue()
+    if name == "docx-equations-nested-48":
+        # one equation per structure kind, nested 48 levels deep (delimiters in delimiters, fractions in numerators, radicals, scripts):
+        # 5 KB of well-formed OMML in an otherwise ordinary generated document
+        import io as _io, zipfile as _zf
+        from vlib.gen import docs as _docs
+        base, _ = _docs.build("docx", 7)
+        M_NS = "http://schemas.openxmlformats.org/officeDocument/2006/math"
+
+        def nest(kind, depth):
+            x = "<m:r><m:t>x</m:t></m:r>"
+            for _ in range(depth):
+                x = {"d": f"<m:d><m:e>{x}</m:e></m:d>", "f": f"<m:f><m:num>{x}</m:num><m:den><m:r><m:t>2</m:t></m:r></m:den></m:f>",
+                     "rad": f"<m:rad><m:deg/><m:e>{x}</m:e></m:rad>", "sSup": f"<m:sSup><m:e>{x}</m:e><m:sup><m:r><m:t>2</m:t></m:r></m:sup></m:sSup>",
+                     "func": f"<m:func><m:fName><m:r><m:t>sin</m:t></m:r></m:fName><m:e>{x}</m:e></m:func>"}[kind]
+            return f'<w:p><m:oMath xmlns:m="{M_NS}">{x}</m:oMath></w:p>'
+        eqs = "".join(nest(k, 48) for k in ("d", "f", "rad", "sSup", "func"))
+        zin = _zf.ZipFile(_io.BytesIO(base))
+        buf = _io.BytesIO()
+        with _zf.ZipFile(buf, "w", _zf.ZIP_DEFLATED) as z:
+            for zi in zin.infolist():
+                d_ = zin.read(zi)
+                if zi.filename == "word/document.xml":
+                    d_ = d_.replace(b"<w:body>", b"<w:body>" + eqs.encode(), 1)
+                z.writestr(zi, d_)
+        return buf.getvalue()
     if name == "tar-latin1-member-names":
         # member names in a legacy 8-bit encoding (a tar written on a Latin-1 system): tarfile decodes them with surrogateescape, so
         # the results' file metadata carries lone surrogates
